@@ -17,6 +17,7 @@ from ._http import connect, proxy_info
 from ._logging import debug, error, trace, isEnabledForError, isEnabledForTrace
 from ._socket import getdefaulttimeout, recv, send, sock_opt
 from ._ssl_compat import ssl
+from ._url import parse_url
 from ._utils import NoLock
 from ._dispatcher import DispatcherBase, WrappedDispatcher
 
@@ -273,6 +274,12 @@ class WebSocket:
                     if not url:
                         raise WebSocketException(
                             f"Handshake status {self.handshake_response.status}: redirect without a Location header"
+                        )
+                    try:
+                        parse_url(url)
+                    except ValueError as e:
+                        raise WebSocketException(
+                            f"Handshake status {self.handshake_response.status}: invalid redirect Location {url!r}: {e}"
                         )
                     self.sock.close()
                     self.sock, addrs = connect(
